@@ -1,8 +1,9 @@
 NOTES = ("Solver-based checking of the real code only (CrossHair/z3 symbolic execution and own AST->SMT encodings regenerated from /repo on every run). "
-         "Exit 0 = held on everything explored (inconclusive conditions are reported in the evidence, never as proofs); exit 1 = replayed violation; exit 2 = harness/engine error. "
-         "Every run also re-proves the engine repairs (harness/selftest.py).")
-_PENDING = "check not built yet in this round; will be claimed once its harness exists (design in DESIGN.md section 3)"
-_TRUST = "Trusted: CrossHair 0.0.110 + z3 model of CPython for the executed subset with the runtime repairs in vf/chpatch.py (re-proved in every run); symbolic strings never reach `re` (finite domains are split first); bounds and alphabets as listed in the evidence; "
+         "Exit 0 = held on everything explored (inconclusive conditions are reported in the evidence, never as proofs; listed known findings print KNOWN-FINDING lines); exit 1 = replayed violation; exit 2 = harness/engine error. "
+         "Every run also re-proves the engine repairs (harness/selftest.py). Known findings: /verif/known_findings.json.")
+_TRUST = ("Trusted: CrossHair 0.0.110 + z3 model of CPython for the executed subset with the runtime repairs in vf/chpatch.py (re-proved in every run); symbolic strings never reach `re`/C code "
+          "(finite domains are split by the solver first, the concrete remainder may run untraced - vf/sym.py); bounds and alphabets as listed in the evidence; ")
+_FD = "finite-domain case split by the solver (CrossHair/z3), real code executed per cell"
 CHECKS = {
  "C01": dict(
     text="Generator-as-oracle contracts: a symbolic assignment and a symbolic spelling of it are turned into tokens, parsed by the real DefaultArgsParser and compared with the assignment through every accessor. Two families per (format skeleton, spelling style): STRUCTURE (which options, where, how many positionals, command names by name/alias/omitted, '--', leniency) and VALUES (option/positional/tail texts, ints, booleans, null). All paths closed per family within the stated bounds.",
@@ -12,14 +13,22 @@ CHECKS = {
     text="For 8 format skeletons: every 1-2 token line over an adversarial alphabet and every 3-token line over a per-format literal menu is parsed strict and lenient under the solver: only the three documented exception classes escape, lenient raises no parse error, strict-ok implies identical lenient result; 7 single-fault mutations raise exactly the documented class.",
     note=_TRUST + "token sequences of length 4-6 are outside the claim.",
     technique="symbolic execution (CrossHair/z3), bounded"),
+ "C03": dict(
+    text="A reference resolver written from the statement is compared with ConsoleApplication.resolve_command on a depth-3 command tree whose attribute bits (default / anonymous / hidden / disabled) and three command-line tokens (names, aliases, wrong names, options, '--') are chosen by the solver; all combinations closed.",
+    note=_TRUST + "names are dictionary keys (finite menus); one tree skeleton; all commands parse leniently so that selection is observed independently of C01/C02.",
+    technique=_FD),
  "C04": dict(
-    text="Command.handle closed for EVERY int result; whole ConsoleApplication.run (catching on) with symbolic handler results (ints, numeric strings, pinned floats/None/bools), 9 exception kinds (library/foreign/coded/chained/source-less/KeyboardInterrupt) x symbolic messages with tag fragments x verbosity x pre-handle listener behaviours: status in 0..255, 0 iff falsy, report printed, handler called exactly once, no other handler.",
-    note=_TRUST + "a full error trace costs ~5 s per path, so message alphabets are small; no report is demanded for KeyboardInterrupt (the repository's own test requires silence).",
-    technique="symbolic execution (CrossHair/z3), bounded"),
+    text="Command.handle closed for EVERY int result; whole ConsoleApplication.run (catching on) with symbolic handler results (ints, numeric strings, pinned floats/None/bools), 13 exception kinds (library/foreign/coded/chained/source-less/KeyboardInterrupt) x messages with tag fragments x 4 verbosities x pre-handle listener behaviours: status in 0..255, 0 iff falsy, report printed, handler called exactly once, no other handler.",
+    note=_TRUST + "no report is demanded for KeyboardInterrupt (the repository's own test requires silence).",
+    technique="symbolic execution (CrossHair/z3) for the status kernel; " + _FD + " for whole runs"),
  "C05": dict(
     text="History form on one parser instance: parse A (may fail) then B, and A,B then C, lines drawn by symbolic indices from menus of state-relevant tokens, over same and different formats (incl. same names / different flags); outcome equals a fresh parser's. Non-mutation of argv list, raw args and format listings under symbolic tokens.",
     note=_TRUST + "histories of 4-6 parses are outside; the parser's carried state is what the previous parses leave, exercised by 2-3 parses.",
     technique="symbolic execution (CrossHair/z3), bounded histories"),
+ "C06": dict(
+    text="Lock-step against a reference model of the stated rules: operation skeletons (add/set of options, command options with aliases, arguments, command names) on 0-2 stacked base formats with every element index symbolic; a rejected addition leaves every query unchanged, an accepted one keeps the invariants, and builder, built format, directly constructed format and model answer ~90 queries identically.",
+    note=_TRUST + "colliding pool of 3 long / 2 short names, 4 alias sets, 3 argument names x 3 kinds; sequences of 6-7 operations outside.",
+    technique=_FD + "; reference model"),
  "C07": dict(
     text="E2: _validate_flags/_validate_short_name/_add_default_flags of Option, CommandOption, Argument are translated from the current source to QF_BV; 'accept <=> documented predicate' and 'accepted => normalised consistently' are single unsat queries over every 16-bit flag word (translator validated on ~1600 concrete words per class). E1: whole constructors incl. defaults, names over an adversarial alphabet (incl. newline, non-ASCII) with/without dashes, conversions (every int text in range, all texts <= 3 chars).",
     note=_TRUST + "z3 for QF_BV; parse_float(repr(x)) only on pinned floats (concretised, not a solver claim).",
@@ -28,13 +37,53 @@ CHECKS = {
     text="Totality/termination for all strings up to the stated length over {a,space,tab,',\",backslash,-}; unquoted split law; quoting inverse for 1-2 (thorough 3) tokens with both quote styles and 4 separators; StringArgs vs ArgvArgs token/option-token equivalence. One condition per length split, all paths closed.",
     note=_TRUST + "lengths beyond the bounds are outside.",
     technique="symbolic execution (CrossHair/z3), bounded string lengths"),
+ "C09": dict(
+    text="Whole runs of a DefaultApplicationConfig application: which global switches are present, long/short spelling, insertion position after the command path, switch order, command (incl. nested) and failing handler are chosen by the solver; oracle = exactly the effects the statement lists; the same switches after '--' (also with a verbosity switch right before it) have no effect.",
+    note=_TRUST + "switches in front of the command name, several verbosity switches, --ansi together with --no-ansi, grouped short switches are outside; known finding C09-v-swallows-positional.",
+    technique=_FD),
  "C10": dict(
     text="For every writing entry point found by reflection on Output, SectionOutput, IO and BufferedIO (57 conditions), the solver closes all paths for EVERY Python int or None as flag word, the four verbosities and both quiet states: text reaches the stream iff not quiet and verbosity >= lowest requested level; monotonicity in the verbosity as a second contract.",
     note=_TRUST + "message fixed to one untagged character; BufferedOutputStream only.",
     technique="symbolic execution (CrossHair/z3), unbounded integer flags"),
+ "C11": dict(
+    text="Balanced messages composed from piece/tag menus (named, inline, unknown and late-registered styles, '<' '>' newline non-ASCII as text): stripped decorated == plain == tag-stripped == expected visible text, undecorated outputs write it without escapes; every style (11 fg x bg x 2^7 attributes) through the three supply routes renders exactly its SGR codes; every reflected line-writing method emits text + one newline; 12 indentation nestings with all amounts/exits.",
+    note=_TRUST + "messages are finite compositions (the formatter uses `re`); SGR codes compared as a set.",
+    technique=_FD),
  "C12": dict(
     text="Operation skeletons (registrations on two events interleaved with dispatch rounds over three events + all queries) with every priority in {-1,0,1} and every stop bit symbolic; oracle = stable sort by (-priority, registration index) cut at the first stopper; all combinations closed by the solver (finite domain: priorities are dict keys).",
     note=_TRUST + "priorities outside {-1,0,1} and random length-40 histories are outside.",
-    technique="symbolic execution (CrossHair/z3), finite domain closed"),
+    technique=_FD),
+ "C13": dict(
+    text="One application skeleton with symbolic hidden/disabled bits, description kinds, value modes, defaults, multi-valued parameters and name preference; application page, parent page and sub-command page rendered at several terminal widths directly and through 'help <path>' / '<path> --help' / '-h': every visible element listed (own and inherited), hidden/disabled ones absent, no line wider than the terminal, both routes byte-identical, handler never run; Paragraph/LabeledParagraph for every width in a range.",
+    note=_TRUST + "plain pages; one tree skeleton; widths from a list (40..120 quick).",
+    technique=_FD),
+ "C14": dict(
+    text="E2: CellWrapper._wrap_columns translated from source to QF_BVFP (cvc5) for 2-3 (thorough 4) columns with symbolic natural lengths and maximal width, wrapping as a nondeterministic stub: loop unwinding assertion, no division by zero, final widths sum <= maximum - unsat for all values in range (the zero-width obligation is the recorded known finding). E1: rendered 2x2 / 1x3 tables parsed back: rectangle, within the terminal, aligned columns, cell characters recovered in order, table unchanged.",
+    note=_TRUST + "cvc5 1.4 for QF_BVFP (exact IEEE semantics incl. round-half-even); stub assumptions guarded by the stub's precondition and a reachability witness; known findings C14-zero-width-column, C14-tagged-cell-wrapped.",
+    technique="SMT (cvc5 QF_BVFP) over translated source + " + _FD, engine="E2 py2smt + E1 crosshair"),
+ "C15": dict(
+    text="E2: the row count booked by SectionOutput.add_content (translated from source, strings abstracted to lengths) equals the rows a W-column terminal uses for all 0<=L<=4096, 1<=W<=512 (cvc5). E1: operation sequences (write, two-line write, overwrite, clear(), clear(n)) over 2-3 sections with lengths below/at/above the width; the emitted bytes run through a terminal emulator must leave exactly the stacked section contents; plain outputs append lines without control codes.",
+    note=_TRUST + "terminal model with pending wrap; tabs outside; known finding C15-clear-n-wrapped.",
+    technique="SMT (cvc5 QF_BVFP) lemma + " + _FD, engine="E2 py2smt + E1 crosshair"),
+ "C16": dict(
+    text="E2: _formatter_percent == floor(100*step/max) for all step<=max<=65535 (z3 QF_BV); bar segment exactly bar_width wide for all step<=max<=4095, width<=64 (cvc5 QF_BVFP, strings as lengths); set_progress with nondeterministic float clock: 0<=step<=max, max never shrinks, reaching max always draws, other draws respect the minimum interval. E1: call sequences on a virtual clock over ANSI/plain/section/quiet outputs; every frame parsed, the screen checked after every draw.",
+    note=_TRUST + "virtual clock replaces time.time in the module; known finding C16-plain-nomax-finish.",
+    technique="SMT (z3 QF_BV, cvc5 QF_BVFP) over translated source + " + _FD, engine="E2 py2smt + E1 crosshair"),
+ "C17": dict(
+    text="Three command lines chosen by the solver from an 18-line menu (valid, invalid, both help forms, failing help, version, unknown option, too many arguments, undefined command, --ansi runs, lenient command) run on one application and compared run-by-run (status, both streams, handler arguments) with applications built from fresh configurations; style objects created/customised in symbolic order never change a table built with another; components rendered twice give identical text.",
+    note=_TRUST + "each run gets a fresh RawArgs of its line (re-using one RawArgs object is outside the statement).",
+    technique=_FD),
+ "C18": dict(
+    text="SelectChoiceValidator against a reference over 6 adversarial choice lists, single/multi-select, every answer <= 3 chars over {a,b,A,0,1,2,-,space,comma}; index/value interchangeability; dialogues (scripts <= 3 lines, end of input anywhere, attempts unlimited/1/2/3, defaults) against a reference counting reads and error lines, with a read budget turning non-termination into a counterexample; confirmation patterns; non-interactive questions.",
+    note=_TRUST + "stty stubbed unavailable; pure-Python scripted input stream.",
+    technique=_FD),
+ "C19": dict(
+    text="Manual mode with a SYMBOLIC unbounded integer clock: advancing redraws exactly when an interval has passed, every frame = indicator value + current message. Automatic mode with threading/time replaced by sequential stubs and the schedule (spinner iterations between body operations, clock, exits normal/Exception/KeyboardInterrupt) symbolic: spinner stopped and joined on every exit, end message last, one frame per terminal line. A concrete real-thread smoke run is reported as concretised.",
+    note=_TRUST + "preemption at bytecode granularity is NOT decided (no encodable scheduler): stated outside; preemption inside the two-write redraw is known finding C19-torn-frame.",
+    technique="symbolic execution (CrossHair/z3) with symbolic clock; symbolic schedules over thread stubs"),
+ "C20": dict(
+    text="Snippet window kernel with symbolic ints (any failing line, window sizes 0..6). Renders of 13 raise sites in generated sources (top/middle/last line, below a multi-line string with form feed and U+2028, markup-like / tabbed / non-ASCII lines, multi-line statement, recursion 1/3/60, custom __str__, causes, source-less) x messages x verbosities x simple x UTF-8 x ignore patterns, each case in a forked child: never raises, class and message present, consecutive numbering, exactly the failing line marked, single-line-token lines verbatim, ignored frames absent below debug; two renders per process.",
+    note=_TRUST + "the highlighter over arbitrary Python source is NOT decided (tokenize is C code): only the generated files.",
+    technique="symbolic execution (CrossHair/z3) for the index kernel; " + _FD + " for renders"),
 }
-NOT_APPLICABLE = {p: _PENDING for p in ["C03","C06","C09","C11","C13","C14","C15","C16","C17","C18","C19","C20"]}
+NOT_APPLICABLE = {}
